@@ -481,7 +481,9 @@ fn check(args: &[String]) -> i32 {
         exit = 1;
         if gi >= 6 {
             // many distinct signatures: report without minimising further ones
-            println!("VIOLATION property={} replay=(not written: more than 6 distinct violation signatures; first ones have replay files) class={}", v.property, v.class);
+            if gi == 6 {
+                println!("VIOLATION property={} replay=(none) note=more than 6 distinct violation signatures, only the first 6 are minimised and written", v.property);
+            }
             continue;
         }
         let plan: Plan = match r.plan.clone().and_then(|p| serde_json::from_value(p).ok()) {
